@@ -438,6 +438,8 @@ def _backend_agreement(ctx) -> None:
     except mirfront.MirUnavailable:
         ctx.step(C07._fraction, ctx, None)
         return
+    ctx.step(C07._rs_iso_tabulate, ctx, mir)      # the compiled parsers on the same tables: the same values, the same refusals
+    ctx.step(C13._rs_duration_tabulate, ctx)
     C07._rs_forward(ctx, mir, sf)
     C07._week(ctx, mir, sf)
     ctx.step(C07._fraction, ctx, mir)       # sub-second digits: cut to six and right-padded, in both parsers
